@@ -95,6 +95,7 @@ let () =
   let rows = ref [] and awards = ref None and cur_details = ref [] in
   let dtx = ref [] in
   let fr = ref [] and fe = ref [] and fnw = ref [] and pt = ref [] and orc = ref [] in
+  let md = ref [] and mj = ref [] and mc = ref [] and mds = ref [] in
   let txs = ref [] and exs = ref [] and yf = ref None and id = ref "" in
   let reset () = txs := []; exs := []; yf := None in
   (try while true do
@@ -102,7 +103,7 @@ let () =
     let t = String.split_on_char ' ' (String.trim line) in
     let q = qc_of_string in
     match t with
-    | ["CASE"; i] -> reset (); dtx := []; fr := []; fe := []; fnw := []; pt := []; orc := []; rows := []; fxc := []; ftx := []; rfiles := []; cur_rates := []; awards := None; cur_details := []; id := i
+    | ["CASE"; i] -> reset (); dtx := []; fr := []; fe := []; fnw := []; pt := []; orc := []; md := []; mj := []; mc := []; mds := []; rows := []; fxc := []; ftx := []; rfiles := []; cur_rates := []; awards := None; cur_details := []; id := i
     | ["FX"; c; y; m; r] -> fxc := (((text_of_string c, z_of_string y), z_of_string m), qc_of_string r) :: !fxc
     | "FTX" :: y :: m :: d :: tick :: rest ->
         let a v c = { am_val = qc_of_string v; am_cur = text_of_string c } in
@@ -264,6 +265,34 @@ let () =
           | Out b -> Printf.sprintf "{\"out\":%s}" (js (hex (string_of_text b)))
           | Write (p, b) -> Printf.sprintf "{\"write\":%s,\"bytes\":%s}" (js (hex (string_of_text p))) (js (hex (string_of_text b))) in
         Printf.printf "{\"id\":%s,\"ok\":%b,\"effects\":%s,\"unknown_content\":%s}\n" (js !id) (st = Exit0) (jlist je effs) (jlist js !unknown)
+    | ["MD"; c; n] -> md := (unhex (String.sub c 1 (String.length c - 1)), int_of_string n) :: !md
+    | ["MJ"; c; n] -> mj := (unhex (String.sub c 1 (String.length c - 1)), int_of_string n) :: !mj
+    | ["MC"; y; ok] -> mc := (y, ok = "1") :: !mc
+    | ["MDS"; ya; y; m; d; tk] -> mds := (ya, ({ dy = z_of_string y; dm = z_of_string m; dd = z_of_string d }, text_of_string (unhex (String.sub tk 1 (String.length tk - 1))))) :: !mds
+    | "RUN" :: "mcp_tool" :: which :: targs ->
+        (* the MCP tool layer on described outcomes of the readers and the calculator: MD/MJ give the number of transactions the DSL / JSON
+           reader finds in a text (-1: refused), MC whether calculate succeeds for a year argument, MDS the disposals its report lists *)
+        let hx f = text_of_string (unhex (String.sub f 1 (String.length f - 1))) in
+        let unknown = ref [] in
+        let look tbl tag c = (match List.assoc_opt (string_of_text c) !tbl with
+                              | Some n when n >= 0 -> Some (tag, n) | Some _ -> None
+                              | None -> unknown := hex (string_of_text c) :: !unknown; None) in
+        let pd = look md "dsl" and pj = look mj "json" in
+        let ykey = function None -> "-" | Some z -> string_of_z z in
+        let calc _ y = (match List.assoc_opt (ykey y) !mc with Some true -> Some (ykey y) | Some false -> None | None -> unknown := ("year:" ^ ykey y) :: !unknown; None) in
+        let disps ya = List.rev (List.filter_map (fun (k, v) -> if k = ya then Some v else None) !mds) in
+        let out = (match which, targs with
+          | "parse", [t] -> (match parse_input pd pj (hx t) with
+                             | TOk (tag, n) -> Printf.sprintf "\"res\":\"ok\",\"reader\":%s,\"count\":%d" (js tag) n
+                             | TErr -> "\"res\":\"err\"" | TUnmodelled -> "\"res\":\"unmodelled\"")
+          | "calc", [t; y] -> (match calculate_tool pd pj (fun (_, n) -> n = 0) calc (hx t) (if y = "-" then None else Some (z_of_string y)) with
+                               | TOk ya -> Printf.sprintf "\"res\":\"ok\",\"year_arg\":%s" (js ya)
+                               | TErr -> "\"res\":\"err\"" | TUnmodelled -> "\"res\":\"unmodelled\"")
+          | "explain", [t; d; tk] -> (match explain_tool pd pj (fun (_, n) -> n = 0) calc disps fst snd (hx t) (hx d) (hx tk) with
+                               | TOk (dt, tick) -> Printf.sprintf "\"res\":\"ok\",\"date\":\"%s-%s-%s\",\"tick\":%s" (string_of_z dt.dy) (string_of_z dt.dm) (string_of_z dt.dd) (js (hex (string_of_text tick)))
+                               | TErr -> "\"res\":\"err\"" | TUnmodelled -> "\"res\":\"unmodelled\"")
+          | _ -> failwith ("bad mcp_tool line: " ^ line)) in
+        Printf.printf "{\"id\":%s,%s,\"unknown\":%s}\n" (js !id) out (jlist js !unknown)
     | ["X"; y; v] -> exs := (z_of_string y, q v) :: !exs
     | ["Y"; y] -> yf := Some (z_of_string y)
     | "T" :: d :: tick :: rest ->
